@@ -16,10 +16,10 @@ type CaseC13 struct {
 	N       int        `json:"n"`
 	Pad     int        `json:"pad"`
 	Left    bool       `json:"left"`
-	S       HexBytes   `json:"s"`              // value to write (scalar)
-	W       HexBytes   `json:"w"`              // raw field bytes to read (scalar), len == N
-	L       []HexBytes `json:"l,omitempty"`    // values to write (list)
-	WL      []HexBytes `json:"wl,omitempty"`   // raw element fields to read (list)
+	S       HexBytes   `json:"s"`               // value to write (scalar)
+	W       HexBytes   `json:"w"`               // raw field bytes to read (scalar), len == N
+	L       []HexBytes `json:"l,omitempty"`     // values to write (list)
+	WL      []HexBytes `json:"wl,omitempty"`    // raw element fields to read (list)
 	Count   string     `json:"count,omitempty"` // uint8|uint16|uint32 (list)
 	LE      bool       `json:"le,omitempty"`
 	Prior   HexBytes   `json:"prior,omitempty"` // bytes already in the output buffer
